@@ -43,7 +43,8 @@ TIERS = {
 }
 REACH_PROBES = ["redefined_in_slot", "closure_dropped_from_container", "container_cleared", "file_reloaded", "file_deleted",
                 "unloaded_and_compared", "setup_again", "several_names_one_entity", "same_live_set_seen_twice",
-                "stale_condition_probe", "periodic_trigger_removed", "webhook_redefined"]
+                "stale_condition_probe", "periodic_trigger_removed", "webhook_redefined",
+                "stop_while_definition_in_progress"]
 SHRINK_LISTS = [["ops"], ["spec", "templates"]]
 
 KINDS = ["ev", "st", "st2", "time", "per", "mqtt", "hook", "svc"]
@@ -89,6 +90,14 @@ def gen(rng: random.Random, tier: str) -> dict:
             ops.append({"kind": "setup"})
         elif roll < 0.92:
             ops.append({"kind": "set_p2", "s": rng.choice(["zz", "ok", "q"])})
+        elif roll < 0.97:
+            # a run-time definition that is still in progress (service call issued, not awaited) when its context is
+            # stopped: by unloading the integration or by reloading the edited script that holds the containers
+            then = rng.choice(["unload", "main_reload"])
+            ops.append({"kind": "make_racing", "slot": rng.choice(SLOTS), "tmpl": tmpl, "then": then,
+                        "after_ms": rng.choice([0, 0.1, 0.4, 1, 3, 10, 25])})
+            if then == "unload":
+                ops.append({"kind": "setup"})
         else:
             ops.append({"kind": "stall", "s": rng.choice([0.05, 0.5])})
     return {"cfg": cfg, "spec": {"templates": templates, "files": files}, "ops": ops}
@@ -257,6 +266,9 @@ def run(scn: dict) -> dict:
         census_by_key: dict = {}
         list_n = 0
         expected_extra: list = []   # startup / shutdown markers expected in the current interval
+        racing: set = set()         # (key, gen) of definitions whose context was stopped while they were in progress:
+        #                             whether their startup/shutdown markers appear is don't-care; they must never run
+        #                             for an occurrence afterwards
         mark_pos = len(w.marks)
 
         def kinds_of(key):
@@ -358,6 +370,8 @@ def run(scn: dict) -> dict:
             for m in w.marks[mark_pos:]:
                 args = m["args"]
                 tup = tuple(args[:6])
+                if (args[1], args[2]) in racing and args[4] == "time" and args[5] in ("startup", "shutdown"):
+                    continue
                 if args[4] == "state":
                     tup = tup + (args[6],)
                 if args[4] == "time" and args[5] not in ("startup", "shutdown"):
@@ -461,6 +475,27 @@ def run(scn: dict) -> dict:
                 remove(f"file_{name}", "file_delete")
             elif kind == "reload":
                 await w.reload()
+            elif kind == "make_racing":
+                key = op["slot"]
+                gens[key] = gens.get(key, 0) + 1
+                racing.add((key, gens[key]))
+                await w.call_service("pyscript", "lifecycle", {"cmd": "make", "slot": key, "gen": gens[key],
+                                                               "tmpl": op["tmpl"]}, blocking=False)
+                if op["after_ms"]:
+                    await w.sleep(op["after_ms"] / 1000.0)
+                w.probe("stop_while_definition_in_progress")
+                if op["then"] == "unload":
+                    await w.unload_entry()
+                    for k in list(live):
+                        remove(k, "unload")
+                    entry_loaded = False
+                    kind = "unload"
+                else:
+                    state["main_rev"] = state.get("main_rev", 0) + 1
+                    w.write_file("pyscript/c09.py", render(scn)["pyscript/c09.py"] + f"# rev {state['main_rev']}\n")
+                    await w.reload()
+                    for k in [k for k, v in live.items() if v["where"] == "closure"]:
+                        remove(k, "main_reload")
             elif kind == "unload":
                 await w.unload_entry()
                 for key in list(live):
@@ -503,7 +538,8 @@ def run(scn: dict) -> dict:
                 exp = sorted(expected_extra, key=repr)
                 expected_extra.clear()
                 got = sorted((tuple(m["args"][:6]) for m in w.marks[mark_pos:]
-                              if not (m["args"][4] == "time" and m["args"][5] not in ("startup", "shutdown"))), key=repr)
+                              if not (m["args"][4] == "time" and m["args"][5] not in ("startup", "shutdown"))
+                              and not ((m["args"][1], m["args"][2]) in racing and m["args"][4] == "time")), key=repr)
                 mark_pos = len(w.marks)
                 if got != exp:
                     viol("C09.startup_shutdown", {"when": "unload"}, f"unload: markers {got}, expected {exp}")
